@@ -1,6 +1,7 @@
 ------------------------------- MODULE MidiBase -------------------------------
 (***************************************************************************)
 (* Shared vocabulary of the helgoboss-midi specification.                   *)
+(* The `@type` comments are Apalache type annotations (ignored by TLC).      *)
 (*                                                                          *)
 (* A short message is a triple <<status, data1, data2>> of naturals         *)
 (* (status 128..255, data 0..127).  Absent values are None (= -1).          *)
@@ -18,17 +19,28 @@ Hi(v) == (v \div 128) % 128          \* high 7 bits of a 14-bit value
 Lo(v) == v % 128                     \* low 7 bits
 Join(h, l) == 128 * h + l            \* 14-bit value from two 7-bit halves
 
+\* @type: (Seq(Int)) => Bool;
 IsChannelMsg(m) == m[1] >= 128 /\ m[1] < 240
+\* @type: (Seq(Int)) => Int;
 MsgChannel(m)   == IF IsChannelMsg(m) THEN m[1] % 16 ELSE None
+\* @type: (Seq(Int)) => Bool;
 IsCC(m)         == m[1] \div 16 = 11
+\* @type: (Seq(Int)) => Int;
 CcNum(m)        == m[2]
+\* @type: (Seq(Int)) => Int;
 CcVal(m)        == m[3]
+\* @type: (Int, Int, Int) => Seq(Int);
 CC(c, n, v)     == <<176 + c, n, v>>
+
+\* @type: (Int, Int, Int) => Seq(Int);
+Msg3(s, d1, d2) == <<s, d1, d2>>
 
 B2I(b) == IF b THEN 1 ELSE 0
 
 \* (N)RPN report constructors
+\* @type: (Int, Int, Int, Bool, Int) => Seq(Int);
 Pn7(c, num, v, reg, dt) == <<c, num, v, B2I(reg), 0, dt>>
+\* @type: (Int, Int, Int, Bool) => Seq(Int);
 Pn14(c, num, v, reg)    == <<c, num, v, B2I(reg), 1, 0>>
 DtEntry == 0
 DtInc   == 1
@@ -36,6 +48,8 @@ DtDec   == 2
 
 \* controller numbers with a role in (N)RPN traffic
 PnControllers == {6, 38, 96, 97, 98, 99, 100, 101}
+\* @type: (Seq(Int)) => Bool;
 IsPnContrib(m)   == IsCC(m) /\ CcNum(m) \in PnControllers
+\* @type: (Seq(Int)) => Bool;
 IsCc14Contrib(m) == IsCC(m) /\ CcNum(m) <= 63
 ===============================================================================
